@@ -62,7 +62,7 @@ class Scenario:
 
 
 def gen_scenario(rng, n, epochs=2, ops_per_rank=6, sizes=(0, 8, 100, 600), ttl=2, maxfan=2, hprog=20, hcb=5, hbc=0,
-                 p_bcast=10, p_mcast=5, p_progress=8, p_mask=5, p_cb=5, p_wait=0, tail=True, uneven=True, fstate=0, subcomm=0):
+                 p_bcast=10, p_mcast=5, p_progress=8, p_mask=5, p_cb=5, p_wait=0, tail=True, uneven=True, fstate=0, subcomm=0, other=0):
     params = {"maxfan": maxfan, "hprog": hprog, "hcb": hcb, "hbc": hbc}
     if fstate:
         params["fstate"] = 1      # every message uses a function object with 8 bytes of state
@@ -77,6 +77,9 @@ def gen_scenario(rng, n, epochs=2, ops_per_rank=6, sizes=(0, 8, 100, 600), ttl=2
     flag = [0]
     last = epochs + (1 if tail else 0)
     for e in range(last):
+        if other and e < epochs and rng.chance(other):
+            # every rank first sends on / synchronises a SECOND ygm::comm of the same process (k messages, barrier)
+            ops.append((e, -1, "other", rng.below(4)))
         for r in range(n):
             k = rng.below(ops_per_rank * 2 + 1) if uneven else ops_per_rank
             if uneven and rng.chance(15):
@@ -177,10 +180,11 @@ def expected(sc):
 
 class Config:
     def __init__(self, nodes, ppn, routing="NONE", buf_kb=None, buf_bytes=None, irecvs=8, isends_wait=4, issend=8,
-                 policy="uniform", eager=50, sim_seed=1, deviate=None):
+                 policy="uniform", eager=50, sim_seed=1, deviate=None, hold=None):
         self.nodes, self.ppn, self.routing = nodes, ppn, routing
         self.buf_kb, self.irecvs, self.isends_wait, self.issend = buf_kb, irecvs, isends_wait, issend
         self.policy, self.eager, self.sim_seed = policy, eager, sim_seed
+        self.hold = hold                  # (dst, steps): deliveries to dst are delayed by that many scheduling steps
         self.deviate = deviate or {}      # systematic exploration: {decision index: offset from the seeded choice}
 
     @property
@@ -199,6 +203,8 @@ class Config:
             e["YGM_COMM_BUFFER_SIZE_KB"] = self.buf_kb
         if getattr(self, "deviate", None):
             e["SIMMPI_DEVIATE"] = ",".join(f"{j}:{a}" for j, a in sorted((int(k), int(v)) for k, v in self.deviate.items()))
+        if getattr(self, "hold", None):
+            e["SIMMPI_HOLD"] = f"{int(self.hold[0])}:{int(self.hold[1])}"
         return e
 
     def key(self):
@@ -241,9 +247,50 @@ class Ev:
 _H = re.compile(r"^(\d+) h r=(\d+) (.*)$")
 
 
+def drop_other_comm(log):
+    """scenario op `other`: what a rank logs between its Q+ and Q- events belongs to a second ygm::comm of the same
+    process.  Remove those lines, the wire lines of the communicators used inside such windows, and the deliveries of
+    the messages sent there; what remains is the history of the communicator under test."""
+    if not any(" Q+" in l for l in log):
+        return log
+    inq, comms, msgs, keep = set(), set(), set(), []
+    rx = re.compile(r"\br=(\d+)\b")
+    for line in log:
+        m = _H.match(line)
+        if m:
+            r, txt = int(m.group(2)), m.group(3)
+            if txt == "Q+":
+                inq.add(r)
+            elif txt == "Q-":
+                inq.discard(r)
+            elif r not in inq:
+                keep.append(line)
+            continue
+        mr = rx.search(line)
+        if mr and int(mr.group(1)) in inq:
+            sp = line.split(" ", 2)
+            d = C.kv(sp[2]) if len(sp) > 2 else {}
+            if sp[1] in ("isend", "irecv", "iallreduce") and "comm" in d:
+                comms.add(d["comm"])
+            if sp[1] == "isend" and "msg" in d:
+                msgs.add(d["msg"])
+            continue
+        keep.append(line)
+    out = []
+    for line in keep:
+        if not _H.match(line):
+            sp = line.split(" ", 2)
+            d = C.kv(sp[2]) if len(sp) > 2 else {}
+            if d.get("comm") in comms or (sp[1] == "deliver" and d.get("msg") in msgs):
+                continue
+        out.append(line)
+    return out
+
+
 def parse(log):
     """returns (harness events incl. hooks, wire events) in log order.  Ranks are YGM ranks: when the communicator is not
     MPI_COMM_WORLD (scenario param subcomm) the process index of the log is mapped through the harness's `ID` events."""
+    log = drop_other_comm(log)
     ygm_of = {}
     for line in log:
         m = _H.match(line)
